@@ -175,6 +175,7 @@ static char **parsec_argv_split_inter(const char *src_string, int delimiter,
   char arg[ARGSIZE];
   char **argv = NULL;
   const char *p;
+  const char *orig_string = src_string;
   char *argtemp;
   int argc = 0;
   size_t arglen;
@@ -236,6 +237,15 @@ static char **parsec_argv_split_inter(const char *src_string, int delimiter,
     }
 
     src_string = p + 1;
+  }
+
+  /* a trailing delimiter is followed by one last, empty, argument */
+
+  if (include_empty && NULL != src_string && src_string != orig_string &&
+      src_string[-1] == delimiter) {
+    arg[0] = '\0';
+    if (PARSEC_SUCCESS != parsec_argv_append(&argc, &argv, arg))
+      return NULL;
   }
 
   /* All done */
